@@ -470,9 +470,10 @@ def worker(c):
         if DESIGNED in s:
             P.count("skipped_designed_error_tendon_equality")
             return
-        if "involves sleeping flex" in s:
-            # known finding C18-flex-vertices-sleep-separately: see out/findings
-            viol("flex:engine-aborts-contact-involves-sleeping-flex", step, error=s[:300])
+        if nflex and ("involves sleeping" in s or "between sleeping bodies" in s):
+            # known finding C18-flex-vertices-sleep-separately-then-abort (out/findings): same root cause, two abort sites
+            viol("flex:engine-aborts:" + ("contact-involves-sleeping-flex" if "involves" in s else "contact-between-sleeping-bodies"),
+                 step, error=s[:300])
         elif "involves sleeping" in s:
             # engine_core_constraint.c mj_nc "SHOULD NOT OCCUR": a contact with a tree that is still asleep reached
             # constraint construction, i.e. the tree touched an awake tree and was not woken
@@ -699,8 +700,11 @@ def worker(c):
                 break
         # islands sleep as a whole: a constraint row never couples a newly sleeping tree with a tree outside its cycle
         if (len(new) or True) and d.s("nefc") and nflex == 0 and not islands_off:
-            J, _ = ref.dense_J(d, m, L)
+            J, S = ref.dense_J(d, m, L)
             groups = [g for g in ref.row_trees(J, T["dof_tree"]) if len(g)]
+            # upper bound of the coupling (structural incidence): a tree is only required to fall asleep when every
+            # tree it MAY be coupled with is ready
+            groups_may = [g for g in ref.may_groups(m, d, S, E) if len(g)]
             if len(new):
                 for g in groups:
                     gs = set(int(x) for x in g)
@@ -713,7 +717,7 @@ def worker(c):
                 if not ok:
                     break
         else:
-            groups = []
+            groups = groups_may = []
         # documented countdown: lower bound c_ref, and "all trees of an island ready => put to sleep"
         if not islands_off and not (d.s("nefc") and d.s("nisland") == 0):
             awake_mid = mid < 0
@@ -725,7 +729,7 @@ def worker(c):
             upd[awake_mid & quiet] = np.minimum(upd[awake_mid & quiet] + 1, -1)
             upd[awake_mid & ~quiet] = kAwake
             c_hi = upd
-            comp = ref.components(ntree, groups) if nflex == 0 else None
+            comp = ref.components(ntree, groups_may) if nflex == 0 else None
             if comp is not None:
                 for t in np.flatnonzero(awake_mid):
                     mates = np.flatnonzero(comp == comp[t]) if comp[t] >= 0 else np.array([t])
